@@ -70,6 +70,8 @@ def random_free(kind, c, rng, n):
         elif r < 0.7:
             t += rng.randint(c["size"], 3 * c["size"])
         jitter = rng.randint(0, c["moo"] + (2 if rng.random() < 0.2 else 0))
+        if rng.random() < c.get("latep", 0):        # a row well behind the watermark: late for one of the last fired windows, most of them inside the allowance
+            jitter = rng.randint(c["moo"] + 1, c["moo"] + c["al"] + 1)
         ts = max(0, t - jitter)
         st = {"a": "add", "id": i, "ts": ts}
         if kind == "session":
